@@ -21,6 +21,7 @@ import EdzedProofs.CronTie
 import EdzedModel.Gen.TranslatedCronCfg
 import EdzedProofs.CronCfgTie
 import EdzedProofs.IntervalTie
+import EdzedProofs.CronTiming
 
 namespace Edzed.Cron
 
@@ -1075,5 +1076,151 @@ theorem translated_cron_time_endpoints_are_translated_range_endpoints (tzAware :
     simp only [Interval.rangeEndpoints, List.mem_flatMap, List.mem_cons, List.not_mem_nil, or_false] at this
     obtain ⟨r, hr, h⟩ := this
     exact ⟨_, ⟨r, hr, rfl⟩, by rcases h with h | h <;> simp [h]⟩
+
+end Edzed.TrTie
+
+/-! ## The TIMING of the translated loop (EdzedProofs/CronTiming.lean)
+
+`mtStep` (one pass of `while True:` of `Cron._maintask`, regenerated from the source) run in an environment model
+`TimedEnv`: wall clock read through `dtnow()` (monotone, a read costs at most `L`), the four ways of sleeping
+(each returns no earlier than requested and at most `W` later), a group of recalculations costs at most `C`,
+declared forward jumps of the clock (at most `J` per primitive step; `J = 0`: none).  All times are rationals
+in seconds; the float arithmetic of the code is treated as exact (the convention of the tie).
+`wp E M Φ r`: `Φ` holds at the end of the pass `r` for EVERY behaviour of the environment, no exception is
+raised, and every awaited sleep is positive and at most `M`. -/
+
+namespace Edzed.TrTie
+open Edzed.Cron Edzed.Gen.TrCron
+
+section timing
+variable {σ T DT B : Type} {P : MtPrims σ T DT B}
+
+/-- **the ±12 h normalisation is right**: for an instant `A` whose time of day is `a` and a reading less than
+    12 h away from it the `sleeptime` computed by the loop is exactly `A − reading` (negative: late) -/
+theorem translated_cron_timing_sleeptime_is_distance (E : TimedEnv P) (a : T) (x : DT) (A : Rat) (k : Int)
+    (hA : A = (k : Rat) * secPerDay + todS P a)
+    (h1 : -(secPerDay / 2) < A - E.abs x) (h2 : A - E.abs x < secPerDay / 2) :
+    secondsUntil P a (P.timeOf x) = A - E.abs x := secondsUntil_eq E a x A k hA h1 h2
+
+/-- **one pass with a known index serves its alarm**: the loop is positioned at entry `i` (time of day `a`) and
+    heading for the instant `A`; the latest reading is at most `G` before `A`, the clock at most `lat` after it.
+    Then for every behaviour of the environment the pass ends as `PassOutcome` says: SERVED with a reading in
+    `[A, A + _TT_ERROR]` that is at most `max (lat + L) (2L + W)` (+ the jumps declared during the pass) after
+    `A`, recalculating exactly the blocks registered for `a` after the sleep, index + 1; or RELOAD (queue item);
+    or RESET – only with a reading more than `_TT_ERROR` past `A` – recalculating every client.  No awaited sleep
+    is longer than `G` (the distance to the alarm): the loop cannot stall. -/
+theorem translated_cron_timing_pass_serves_alarm (E : TimedEnv P) (tt : List T) (n i : Nat) (a : T)
+    (A G lat UP : Rat) (L : MtLocals T DT) (w : σ)
+    (K : KnownSt E tt n i a A G lat L w)
+    (kA : Int) (hA : A = (kA : Rat) * secPerDay + todS P a) (hG : G < secPerDay / 2)
+    (hU0 : A + lat + E.L ≤ UP) (hU2 : A + 2 * E.L + E.W ≤ UP)
+    (hwin : UP + 7 * E.J < A + secPerDay / 2) :
+    wp E G (PassOutcome E tt n i a A G (E.off w) UP 7) (mtStep P L w) :=
+  pass_known E G tt n i a A G lat UP L w (le_refl _) K kA hA hG hU0 hU2 hwin
+
+/-- **a pass with an unknown index** (start, after a reload, after a reset): one reading `r`; the pass heads for
+    the FIRST instant `A ≥ r` whose time of day is in the timetable (`A ≤ r + G`), all clients are recalculated
+    with `r`, then as above with the bound `2L + W + C` -/
+theorem translated_cron_timing_resync_pass (E : TimedEnv P) (tt : List T) (n : Nat) (g G : Rat)
+    (L : MtLocals T DT) (w : σ) (h1 : L.v1 = false) (h2 : L.v2 = false) (h6 : L.v6 = none)
+    (h4 : L.v4 = tt) (h5 : L.v5 = n) (hlen : tt.length = n) (hov : ttOk ≤ L.v0)
+    (ok : TTok P tt g G) (hG : G < secPerDay / 2)
+    (hwin : 2 * E.L + E.W + E.C + 8 * E.J < secPerDay / 2) :
+    ∃ idx a A, ∃ kA : Int, idx < n ∧ tt[idx]? = some a ∧ A = (kA : Rat) * secPerDay + todS P a ∧
+      E.abs (P.dtnow w).1 ≤ A ∧ A ≤ E.abs (P.dtnow w).1 + G ∧
+      wp E G (PassOutcome E tt n idx a A G (E.off w) (A + 2 * E.L + E.W + E.C) 8) (mtStep P L w) :=
+  pass_resync E G tt n g G L w (le_refl _) h1 h2 h6 h4 h5 hlen hov ok (ok.bis _) hG hwin
+
+/-- a pending reload is a pass with an unknown index on the timetable rebuilt from `_SET24` and the CURRENT keys -/
+theorem translated_cron_timing_reload_pass (L : MtLocals T DT) (w : σ) (h : L.v2 = true) :
+    mtStep P L w = mtStep P ({ L with v2 := false, v4 := P.sortedUnion P.set24 (P.alarmKeys w), v5 := (P.sortedUnion P.set24 (P.alarmKeys w)).length, v6 := none } : MtLocals T DT) w :=
+  head_reload L w h
+
+/-- **no alarm is skipped between two consecutive passes**: after a SERVED pass the loop is positioned at the next
+    entry of the timetable and heads for `A + nextGap` – the first instant after `A` whose time of day is in the
+    timetable – with the invariant of `…_pass_serves_alarm` re-established -/
+theorem translated_cron_timing_no_alarm_skipped (E : TimedEnv P) (tt : List T) (n i : Nat) (a : T)
+    (A G g off0 UP m : Rat) (L' : MtLocals T DT) (w' : σ) (hlen : tt.length = n) (hi : i < n)
+    (hget : tt[i]? = some a) (ok : TTok P tt g G) (kA : Int) (hA : A = (kA : Rat) * secPerDay + todS P a)
+    (h : PassOutcome E tt n i a A G off0 UP m L' w') (hs : L'.v2 = false) (hs6 : L'.v6 ≠ none) :
+    ∃ a' kA', tt[(i + 1) % n]? = some a' ∧
+      A + nextGap P tt i = ((kA' : Int) : Rat) * secPerDay + todS P a' ∧
+      A ≤ E.abs L'.v7 ∧ E.abs L'.v7 ≤ A + ttError ∧ E.abs L'.v7 ≤ UP + m * E.J ∧
+      KnownSt E tt n ((i + 1) % n) a' (A + nextGap P tt i) G
+        (UP - A + E.C + (m + 1) * E.J - nextGap P tt i) L' w' :=
+  served_next E tt n i a A G g off0 UP m L' w' hlen hi hget ok kA hA h hs hs6
+
+/-- **the service guarantee for every number of passes** (S2 of the acceptance predicate, from the environment
+    assumptions instead of trace acceptance).  Without clock jumps (`J = 0`), with `2L + W + C ≤ _TT_ERROR` and
+    consecutive timetable entries at least `L + C` and at most `G < 12 h` apart: from the initial state of
+    `_maintask`, EACH of the first `N` passes – for every `N` and every behaviour of the environment – heads for
+    an instant `A` of the timetable and either recalculates exactly the blocks registered for its time of day
+    with a reading `r`, `A ≤ r ≤ A + 2L + W + C`, and advances the index by one, or is cut short by a reload
+    request (the next pass re-positions the index with ONE reading and recalculates everybody with it); it never
+    ends in a reset, never raises, and never awaits a sleep longer than `G`. -/
+theorem translated_cron_timing_service_every_pass [Inhabited T] [Inhabited DT] (E : TimedEnv P) (g G : Rat)
+    (hJ0 : E.J = 0) (hlam : lamServe E ≤ ttError) (hg : E.L + E.C ≤ g) (hG : G < secPerDay / 2)
+    (htt : ∀ w, TTok P (P.sortedUnion P.set24 (P.alarmKeys w)) g G) (N : Nat) (w : σ) :
+    allPasses E G (GoodPass E G) N (mtInit : MtLocals T DT) w :=
+  all_passes_good E g G hJ0 hlam hg hG htt N mtInit w ⟨rfl, le_refl _, Or.inl rfl⟩
+
+/-- … and from any state between two passes -/
+theorem translated_cron_timing_service_from_ready (E : TimedEnv P) (g G : Rat)
+    (hJ0 : E.J = 0) (hlam : lamServe E ≤ ttError) (hg : E.L + E.C ≤ g) (hG : G < secPerDay / 2)
+    (htt : ∀ w, TTok P (P.sortedUnion P.set24 (P.alarmKeys w)) g G) (N : Nat)
+    (L : MtLocals T DT) (w : σ) (h : Ready E g G L w) :
+    allPasses E G (GoodPass E G) N L w :=
+  all_passes_good E g G hJ0 hlam hg hG htt N L w h
+
+/-- what `wp` demands of an awaited sleep: it is positive and at most `M` (so `wp E G …` = no stall), and of an
+    exception: that it does not happen -/
+theorem translated_cron_timing_wp_bounds_sleeps (E : TimedEnv P) (M d : Rat) (Φ : MtLocals T DT → σ → Prop)
+    (w : σ) (k : σ → Res (MtLocals T DT) σ) (kq : Bool → σ → Res (MtLocals T DT) σ) (e : MExc)
+    (l : MtLocals T DT) :
+    (wp E M Φ (.sleep d w k) → 0 < d ∧ d ≤ M) ∧ (wp E M Φ (.waitQueue d w kq) → 0 < d ∧ d ≤ M) ∧
+    ¬ wp E M Φ (.raise e l w) := by
+  refine ⟨fun h => ?_, fun h => ?_, fun h => ?_⟩ <;> simp only [wp] at h
+  · exact ⟨h.1, h.2.1⟩
+  · exact ⟨h.1, h.2.1⟩
+
+end timing
+
+/-! ### the "sleeps for a day" defect (repaired by 5cd81d8) as a machine-checked counterexample -/
+
+/-- the midnight rule of `_maintask` BEFORE the repair: only "reading in hour 23, wake-up in hour 0" wraps -/
+def secondsUntilOld {σ T DT B : Type} (P : MtPrims σ T DT B) (wakeup nowt : T) : Rat :=
+  let s : Rat := secPerHour * (P.hour wakeup - P.hour nowt)
+    + secPerMin * (P.minute wakeup - P.minute nowt)
+    + (P.second wakeup - P.second nowt) + (P.microsecond wakeup - P.microsecond nowt) / 1000000
+  if P.hour nowt = 23 ∧ P.hour wakeup = 0 then s + secPerDay else s
+
+/-- times of day as (hour, minute, second, microsecond); nothing else matters here -/
+def hmsPrims : MtPrims Unit (Rat × Rat × Rat × Rat) Unit Unit where
+  dtnow w := ((), w)
+  timeOf _ := (0, 0, 0, 0)
+  set24 := []
+  alarmKeys _ := []
+  sortedUnion a _ := a
+  bisectLeft _ _ := 0
+  allClients _ := []
+  hasAlarm _ _ := false
+  clientsAt _ _ := []
+  recalc _ _ w := w
+  hour t := t.1
+  minute t := t.2.1
+  second t := t.2.2.1
+  microsecond t := t.2.2.2
+  blockingSleep _ w := w
+
+/-- an alarm at 23:59:59.9995 whose wake-up is read at 00:00:00.0001 (0.6 ms late, past midnight): the old rule
+    computes +86399.9994 s and would await `wait_for(…, 86399.9984)` – 24 times the one hour that
+    `translated_cron_timing_pass_serves_alarm` allows (`wp E G` with `G ≤ 1 h`); the repaired normalisation gives
+    −0.0006 s (late: serve at once) -/
+theorem translated_cron_timing_prefix_midnight_stall :
+    secondsUntilOld hmsPrims (23, 59, 59, 999500) (0, 0, 0, 100) = 863999994 / 10000 ∧
+    secondsUntil hmsPrims (23, 59, 59, 999500) (0, 0, 0, 100) = -(6 / 10000) ∧
+    (3600 : Rat) < secondsUntilOld hmsPrims (23, 59, 59, 999500) (0, 0, 0, 100) - ttOk := by
+  unfold secondsUntilOld secondsUntil hmsPrims secPerHour secPerMin secPerDay ttOk
+  norm_num
 
 end Edzed.TrTie
